@@ -38,18 +38,20 @@ def ws2dpgu(y, lmda, nodata, p, out):
 
         if n > 1:
             p1 = 1 - p
+            # masked cells may hold NaN/inf, and 0 * NaN would poison the solve
+            yv = np.where(w > 0, y, 0.0)
             z = np.zeros(m)
             znew = np.zeros(m)
             wa = np.zeros(m)
 
             # Calculate weights
             for _ in range(10):
-                envelope = y > z
+                envelope = yv > z
                 wa[envelope] = p
                 wa[~envelope] = p1
                 ww = w * wa
 
-                znew[:] = ws2d(y, lmda, ww)
+                znew[:] = ws2d(yv, lmda, ww)
 
                 z_tmp = np.sum(np.abs(znew - z))
                 if z_tmp == 0.0:
@@ -57,7 +59,7 @@ def ws2dpgu(y, lmda, nodata, p, out):
 
                 z[:] = znew[:]
 
-            z = ws2d(y, lmda, ww)
+            z = ws2d(yv, lmda, ww)
             np.round(z, 0, out)
 
         else:
